@@ -570,10 +570,13 @@ func (client *Client) send(ctx context.Context, call *Call) {
 	data, err := codec.Encode(call.Args)
 	if err != nil {
 		client.mutex.Lock()
+		call = client.pending[seq]
 		delete(client.pending, seq)
 		client.mutex.Unlock()
-		call.Error = err
-		call.done()
+		if call != nil { // not already completed by Close or by the reader
+			call.Error = err
+			call.done()
+		}
 		return
 	}
 	if len(data) > 1024 && client.option.CompressType != protocol.None {
